@@ -1,5 +1,5 @@
 """C20 — Candidate gathering always completes and reports what the servers confirmed."""
-import vlib, sim_common as sc
+import vlib, tabgen, sim_common as sc
 
 COQ_TARGETS = ["Props/Properties_C20.vo"]
 META = dict(
@@ -15,7 +15,10 @@ META = dict(
          "adversarial scripts step by step against the model inside Coq. (b) Coq theorems over a model of priv_add_local_candidate_pruned (tied to agent/discovery.c by differential execution evaluated inside Coq): "
          "for EVERY sequence of discovery results the local candidate list holds no candidate redundant with an earlier one, none twice, none that was not supplied; "
          "a refusal always has an earlier redundant candidate as its reason; host candidates for new addresses are always kept; an unanswered transaction "
-         "waits exactly 4 x RTO (from the C19 timer theorems). Completion 'exactly once and in bounded time whatever the servers do' is NOT proved: a real "
+         "waits exactly 4 x RTO (from the C19 timer theorems). (c) Servers given by NAME (coq/Agent/LookupModel.v, 15 statements of agent.c / discovery.c checked "
+         "verbatim): for EVERY number of lookups, every order in which the resolver answers land, succeed or fail, and every interleaving with the discovery "
+         "timer, completion is announced at most once, only after every lookup has landed and the discovery has finished, and has been announced whenever "
+         "nothing more can happen (the two behaviours of the code before fix a7c512a are kept as counter-examples). Completion 'exactly once and in bounded time whatever the servers do' is NOT proved: a real "
          "agent gathers in the deterministic simulator against scripted STUN/TURN servers (silent, late, duplicate, garbage, other transaction id, every "
          "error class, 401 then success, endless 401/438, alternate-server chains, NAT-mapped answers; 0..1 STUN x 0..3 TURN servers, 1..2 addresses, 1..2 "
          "components, loss on the server paths, gathering again after a restart) with completion count, time bound and the confirmed candidate set as oracles.",
@@ -86,7 +89,13 @@ def oracle(line, evs, meta):
 def pregen():
     """regenerate coq/Gen/Discovery.v (constants of the discovery tick) and check the modelled statements of discovery.c / conncheck.c"""
     import c20_discovery
-    return c20_discovery.discovery_shape()
+    gi, err = c20_discovery.discovery_shape()
+    if gi is None:
+        return gi, err
+    gl, errl = tabgen.lookup_shape()          # statements behind coq/Agent/LookupModel.v (name lookups and the completion test)
+    if gl is None:
+        return gl, errl
+    return gi, ""
 
 
 def run(chk):
